@@ -1,15 +1,108 @@
 /-
-Driver.CertSuite — suite `cert` (stub: replaced by the owner of the suite).
-Must define `certLine : String → String` (case line ↦ model observation line) and
-`certPred : String → String → String → String` (property id, case line, implementation
-observation line ↦ "ok" | "fail <reason>").
+Driver.CertSuite — suite `cert` (C19): run Model.Cert on the request history of a
+case and print the observation in the canonical form of harness/src/suites/cert.rs;
+evaluate `P_C19` on the implementation's observation.
 -/
-import Driver.Sx
+import Driver.SerdeInst
+import VarlinkVerif.Pred.Cert
 
 namespace VV
+open Sx
 
-def certLine (_line : String) : String := "(stub)"
+def certConsts : Consts := { serviceDesc := "" }
 
-def certPred (_prop _caseLine _obsLine : String) : String := "fail stub-suite"
+def repSx (r : Reply) : Sx :=
+  .list [.atom "rep", ofOptBool r.continues, ofOptStr r.error, ofOptJson r.parameters]
+
+structure CertRun where
+  st : CertState := CertState.empty
+  starts : Nat := 0
+  out : List Sx := []
+
+def certStepLine (run : CertRun) (raw : Json) : CertRun :=
+  match decodeRequest cvtF64 raw with
+  | none => { run with out := run.out ++ [.list [.atom "r", .atom "t"]] }
+  | some req =>
+    let fresh := "@cid" ++ toString run.starts
+    let (st', res) := certServe cvtF64 certConsts "" run.st fresh req
+    let started := decide (res.out = [startReply fresh])
+    { st := st', starts := if started then run.starts + 1 else run.starts,
+      out := run.out ++ [.list (.atom "r" :: ofBool (!res.ok) :: res.out.map repSx)] }
+
+def parseQ : Sx → Option (String × Json)
+  | .list [.atom "q", _, .atom cls, raw] => (toJson raw).map fun j => (cls, j)
+  | _ => none
+
+def roundRobin (n : Nat) : List Nat := (List.range 13).flatMap fun _ => List.range n
+
+def certLine (line : String) : String :=
+  match parse line with
+  | some (.list (.atom "cert" :: qs)) =>
+    match qs.mapM parseQ with
+    | some qs =>
+      let run := qs.foldl (fun run q => certStepLine run q.2) {}
+      render (.list (.atom "obs" :: run.out))
+    | none => "(model-case-error)"
+  | some (.list [.atom "conc", n]) =>
+    match asNat n with
+    | some n =>
+      -- any interleaving gives every client its success replies (C19_canonical_succeeds):
+      -- the model runs the round-robin one
+      let idOf := fun (c : Nat) => "@cid" ++ toString c
+      let evs := runSched cvtF64 idOf CertState.empty (fun _ => .start) (roundRobin n)
+      let clients := (List.range n).map fun c =>
+        Sx.list (.atom "client" :: (evs.filter fun e => e.1 == c).map fun e =>
+          Sx.list (.atom "r" :: .atom "f" :: e.2.2.map repSx))
+      render (.list (.atom "obs" :: clients))
+    | none => "(model-case-error)"
+  | some (.list [.atom "realclient", n]) =>
+    match asNat n with
+    | some n => render (.list (.atom "obs" :: List.replicate n (.list [.atom "exit", .atom "0"])))
+    | none => "(model-case-error)"
+  | _ => "(model-parse-error)"
+
+/-! ### predicate glue -/
+
+def parseRep : Sx → Option Reply
+  | .list [.atom "rep", c, e, p] => do
+    let c ← asOptBool c
+    let e ← asOptStr e
+    let p ← asOptJson p
+    pure { continues := c, error := e, parameters := p }
+  | _ => none
+
+def parseR : Sx → Option (Bool × List Reply)
+  | .list (.atom "r" :: .atom "f" :: reps) => (reps.mapM parseRep).map fun l => (false, l)
+  | .list (.atom "r" :: .atom "t" :: reps) => (reps.mapM parseRep).map fun l => (true, l)
+  | _ => none
+
+def certPred (prop : String) (caseLine obsLine : String) : String :=
+  if prop != "C19" then "fail unknown-property" else
+  match parse caseLine, parse obsLine with
+  | some _, some (.list (.atom "panic" :: _)) => "fail panic"
+  | some (.list (.atom "cert" :: qs)), some (.list (.atom "obs" :: rs)) =>
+    match qs.mapM parseQ, rs.mapM parseR with
+    | some qs, some rs =>
+      if qs.length != rs.length then "fail observation-length" else
+      let hist : List CertQ := (qs.zip rs).map fun (q, r) =>
+        { cls := q.1, raw := q.2, closed := r.1, replies := r.2 }
+      match P_C19_history cvtF64 [] hist with
+      | none => "ok"
+      | some r => "fail " ++ r
+    | _, _ => "fail unparsable-case-or-observation"
+  | some (.list [.atom "conc", _]), some (.list (.atom "obs" :: cs)) =>
+    let clients := cs.mapM fun c => match c with
+      | Sx.list (Sx.atom "client" :: rs) => rs.mapM parseR
+      | _ => none
+    match clients with
+    | some clients =>
+      match P_C19_conc clients with
+      | none => "ok"
+      | some r => "fail " ++ r
+    | none => "fail unparsable-observation"
+  | some (.list [.atom "realclient", n]), some (.list (.atom "obs" :: es)) =>
+    if es.length == (asNat n).getD 0 && es.all (fun e => render e == "(exit 0)") then "ok"
+    else "fail real-canonical-client-failed"
+  | _, _ => "fail unparsable-line"
 
 end VV
